@@ -1,5 +1,5 @@
 """Store a confirmed behaviour-preserving refactor under /verif/benign/<ID>/ (patch.diff, probe.py, meta.json).
-usage: save_benign.py <ID> [--src /tmp/seed3/out_<ID>] [--eval /tmp/seed3/full/eval_<ID>.json]
+usage: save_benign.py <ID> [--src /tmp/seed3/out_<ID>] [--eval /tmp/seed3/full/eval_<ID>.json] [--name <dir name>]
 Kept only when the evaluation (tools/eval_benign.py, run WITH the baseline tests) shows: the patch applies, probe.py prints the same
 records on the clean and on the patched tree, and no stable baseline test is lost.  Every check must stay silent on it (thorough tier).
 """
@@ -27,7 +27,8 @@ elif ev['stable_lost_count']:
 if problems:
     print('NOT KEPT %s: %s' % (ID, '; '.join(problems)))
     sys.exit(1)
-dst = os.path.join(VERIF, 'benign', ID)
+name = opt('--name', ID)
+dst = os.path.join(VERIF, 'benign', name)
 os.makedirs(dst, exist_ok=True)
 shutil.copy(os.path.join(src, 'patch.diff'), os.path.join(dst, 'patch.diff'))
 shutil.copy(os.path.join(src, 'probe.py'), os.path.join(dst, 'probe.py'))
